@@ -633,6 +633,8 @@ func ruleC16Formats(c *Ctx) {
 	use := c.wordUses(pb)
 	if use["oid"] == 0 && use["type"] == 1 && use["size"] == 2 && len(use) >= 3 {
 		c.hold("C16.formats", "cat-file", pb.Pos(), "default header read as oid=words[0] type=words[1] size=words[2]")
+	} else if len(use) == 0 {
+		c.notDecided("C16.formats", "cat-file", pb.Pos(), "the header is not taken apart with Split: which field feeds which role is not read off by this rule")
 	} else {
 		c.violate("C16.formats", "cat-file", pb.Pos(), fnName(pb), fmt.Sprintf("cat-file's default header `<oid> <type> <size>` is read with %v", use))
 	}
@@ -1260,10 +1262,6 @@ func ruleC15EachGroup(c *Ctx) {
 			}
 		}
 	}
-	if aug == nil {
-		c.violate("C15.each-group", "augment", reader.Pos(), name, "listed groups are not augmented from their own sections")
-		return
-	}
 	// symbol: the RefGroupSymbol-typed value split from the entry key in this iteration
 	var symbol ssa.Value
 	for b := range l.Blocks {
@@ -1272,6 +1270,75 @@ func ruleC15EachGroup(c *Ctx) {
 				symbol = ex
 			}
 		}
+	}
+	// collect first, augment afterwards: the loop over the entries appends
+	// the symbol to a list, and a second loop over that list augments each
+	// of its elements unconditionally; the append then stands for the call
+	var site ssa.Instruction
+	if aug == nil && symbol != nil {
+		var acc *ssa.Call
+		for b := range l.Blocks {
+			for _, in := range b.Instrs {
+				call, ok := in.(*ssa.Call)
+				if !ok || !isBuiltin(&call.Call, "append") {
+					continue
+				}
+				sl, ok := call.Type().Underlying().(*types.Slice)
+				if !ok || !isNamed(sl.Elem(), modPath+"/sizes", "RefGroupSymbol") {
+					continue
+				}
+				for _, el := range c.sliceElemValues(call.Call.Args[1]) {
+					if el != nil && c.resolve(el) == symbol {
+						acc = call
+					}
+				}
+			}
+		}
+		if acc != nil {
+			for _, l2 := range loopsOf(reader) {
+				if l2 == l || l.Blocks[l2.Head] || l2.Blocks[l.Head] {
+					continue
+				}
+				overList := false
+				var aug2 *ssa.Call
+				for b := range l2.Blocks {
+					for _, in := range b.Instrs {
+						switch x := in.(type) {
+						case *ssa.IndexAddr:
+							if sl, ok := x.X.Type().Underlying().(*types.Slice); ok && isNamed(sl.Elem(), modPath+"/sizes", "RefGroupSymbol") {
+								overList = true
+							}
+						case *ssa.Call:
+							if cal := x.Call.StaticCallee(); cal != nil && c.inRuleScope(cal) && cal.Signature.Results().Len() == 1 && isErrorType(cal.Signature.Results().At(0).Type()) {
+								aug2 = x
+							}
+						}
+					}
+				}
+				if !overList || aug2 == nil {
+					continue
+				}
+				uncond := true
+				for _, f := range factsAt(aug2.Block()) {
+					if l2.Blocks[f.If.Block()] && f.If.Block() != l2.Head {
+						uncond = false
+					}
+				}
+				if uncond {
+					aug, site = aug2, acc
+				} else {
+					c.violate("C15.each-group", "guard", aug2.Pos(), name, "whether a collected group is built from its section depends on a further condition")
+					return
+				}
+			}
+		}
+	}
+	if aug == nil {
+		c.violate("C15.each-group", "augment", reader.Pos(), name, "listed groups are not augmented from their own sections")
+		return
+	}
+	if site == nil {
+		site = aug
 	}
 	if symbol == nil {
 		c.undecided("C15.each-group", "symbol", aug.Pos(), name, "cannot identify the group symbol derived from the entry key")
@@ -1314,7 +1381,7 @@ func ruleC15EachGroup(c *Ctx) {
 	}
 	// guards of the augment call inside the loop
 	bad := ""
-	for _, f := range factsAt(aug.Block()) {
+	for _, f := range factsAt(site.Block()) {
 		if !l.Blocks[f.If.Block()] || f.If.Block() == l.Head || member[f.If.Block()] {
 			continue
 		}
@@ -1336,6 +1403,84 @@ func ruleC15EachGroup(c *Ctx) {
 			}
 		}
 		bad = strings.TrimSpace(cond.String())
+	}
+	if bad == "" {
+		// conditions that do not dominate the call (`if !a && !b { continue }`)
+		// are found on the paths: starting at the loop head and taking, at a
+		// test of the symbol itself, only the way on towards the call, the
+		// next iteration must not be reachable around the call
+		accepted := func(iff *ssa.If) bool {
+			if member[iff.Block()] {
+				return true
+			}
+			cond, truth := normCond(iff.Cond, true)
+			switch x := cond.(type) {
+			case *ssa.BinOp:
+				return (x.X == symbol || x.Y == symbol) && (x.Op == token.EQL || x.Op == token.NEQ)
+			case *ssa.Lookup:
+				_ = truth
+				return c.resolve(x.Index) == symbol
+			case *ssa.Extract:
+				if lk, ok := x.Tuple.(*ssa.Lookup); ok && c.resolve(lk.Index) == symbol {
+					return true
+				}
+			}
+			return false
+		}
+		target := site.Block()
+		reach := map[*ssa.BasicBlock]bool{target: true}
+		work := []*ssa.BasicBlock{target}
+		for len(work) > 0 {
+			b := work[len(work)-1]
+			work = work[:len(work)-1]
+			if b == l.Head {
+				continue
+			}
+			for _, p := range b.Preds {
+				if l.Blocks[p] && !reach[p] {
+					reach[p] = true
+					work = append(work, p)
+				}
+			}
+		}
+		seenB := map[*ssa.BasicBlock]bool{l.Head: true}
+		work = []*ssa.BasicBlock{l.Head}
+		for len(work) > 0 && bad == "" {
+			b := work[len(work)-1]
+			work = work[:len(work)-1]
+			if b == target {
+				continue
+			}
+			succs := b.Succs
+			if iff, isIf := b.Instrs[len(b.Instrs)-1].(*ssa.If); isIf && b != l.Head && accepted(iff) {
+				var on []*ssa.BasicBlock
+				for _, sc := range succs {
+					if reach[sc] && sc != l.Head {
+						on = append(on, sc)
+					}
+				}
+				if len(on) > 0 {
+					succs = on
+				}
+			}
+			for _, sc := range succs {
+				if sc == l.Head && b != l.Head {
+					bad = "the call is skipped on a path through " + b.String()
+					if iff, isIf := b.Instrs[len(b.Instrs)-1].(*ssa.If); isIf {
+						bad = strings.TrimSpace(iff.Cond.String())
+					} else if len(b.Preds) > 0 {
+						if iff, isIf := b.Preds[0].Instrs[len(b.Preds[0].Instrs)-1].(*ssa.If); isIf {
+							bad = strings.TrimSpace(iff.Cond.String())
+						}
+					}
+					break
+				}
+				if l.Blocks[sc] && !seenB[sc] {
+					seenB[sc] = true
+					work = append(work, sc)
+				}
+			}
+		}
 	}
 	if bad != "" {
 		c.violate("C15.each-group", "guard", aug.Pos(), name, "whether a listed group is built from its section depends on a further condition ("+bad+")")
@@ -1656,6 +1801,38 @@ func ruleC16HeaderLoops(c *Ctx) {
 						st = append(st, s)
 					}
 				}
+			}
+		}
+		// all headers are read: the loop is left only when the iterator has
+		// no more headers, or with an error
+		hasNext := c.fn("/git", "*ObjectHeaderIter", "HasNext")
+		for b := range l.Blocks {
+			for _, sc := range b.Succs {
+				if l.Blocks[sc] {
+					continue
+				}
+				legit := false
+				for _, fct := range append(factsAt(b), factsOnEdge(b, sc)...) {
+					cond, truth := normCond(fct.Cond, fct.Truth)
+					if hc, isCall := cond.(*ssa.Call); isCall && !truth && hasNext != nil && hc.Call.StaticCallee() == hasNext {
+						legit = true
+					}
+					if ex, isEx := cond.(*ssa.Extract); isEx && !truth && ex.Tuple == ssa.Value(call) && isBoolType(ex.Type()) {
+						legit = true
+					}
+					if m, isNil := errNilFact(cond, truth, errV); m && !isNil {
+						legit = true
+					}
+				}
+				if !legit {
+					if isErr, _ := c.edgeLeavesWithError(b, sc); isErr {
+						legit = true
+					}
+				}
+				if legit {
+					continue
+				}
+				c.violate("C16.grammar", "header-loop-exit:"+fnName(f), b.Instrs[len(b.Instrs)-1].Pos(), fnName(f), "the loop over an object's headers can be left before the headers are exhausted (and without an error): headers that follow are not parsed, so the object is not what git stored")
 			}
 		}
 		if stuck {
